@@ -28,6 +28,7 @@ META["claim"] += " " + "Also: losses that cut a frame or a fragmented message in
 META["claim"] += " " + 'Round 4: nine more ways for a connection attempt to fail (unreachable, connect timeout, resolver error, EIO, 500, garbage response, wrong accept value, TLS certificate failure, TLS protocol error); loss while a keepalive ping is still being written on a slow path.'
 META["claim"] += " " + 'Round 5: the interval taken from websocket.setReconnect() instead of the argument.'
 META["claim"] += " " + 'Rounds 6-7: a failing header callable; rejections carrying a binary body; an open callback that sends and reads an answer from the connection itself and loses the connection there.'
+META["claim"] += " " + "Round 8: ping writes that outlast the library's wait for its ping thread; a loss between a ping and its pong with both dispatchers; close() during the reconnect interval that follows a ping timeout."
 
 LOSSES = ["refused", "reject", "eof", "reset", "pingtimeout"]
 TLS_LOSSES = ["ssl-eof"]
